@@ -588,7 +588,7 @@ def main() -> int:
     ck.sample({'symbolic_template': 'ms[i].r > 0', 'symbolic': ['field name r', 'literal index i', 'fixed length L']})
     ck.sample({'fault_injection_host': gen.render(specs[len(specs) // 2])})
     ck.bound('SP', '17 templates (every use kind: number/bool/string/message/array/index/range bound/set element/function argument/quantifier domain/nested index); field name unbounded, L in [-1,4], i in [-2,5]')
-    ck.bound('fault injection', f'{inj} single-fault texts over {len(specs)} well-typed predicates of the C04 generator; faults: unknown field at any depth, field/array confusion (both ways), literal index past the end')
+    ck.bound('fault injection', f'{inj} single-fault texts over {len(specs)} well-typed predicates of the C04 generator; faults: unknown field at any depth, a field that exists only in the other message, field/array confusion (both ways), literal index past the end; every valid predicate also re-checked against a type-rotated schema on a fresh and on an already-checked object')
     ck.bound('integer tokens', 'all values of each bit width (bit-vector theory): complete')
     ck.coverage['evaluations'] = inj + paths
     ck.coverage['distinct_nontrivial'] = len(specs)
